@@ -148,9 +148,11 @@ def sweep_case(ctx, case, hexe, dexe, bb, work, ci, quick):
         if structural:
             mm = first_mismatch(base[x], base[y], rec_struct)
             if mm:
-                key = KEY_PZ if (x in "PR" and y in "TA" and explained_by_sign_quirk(base[x], base[y], M)) else None
+                key = None      # (the probing unigram sign-bit quirk is repaired by repo patch 60)
+                quirk = x in "PR" and y in "TA" and explained_by_sign_quirk(base[x], base[y], M)
                 report("six-way: %s and %s differ structurally" % (lmq.NAMES[x], lmq.NAMES[y]),
-                       {"pair": [x, y], "query": mm[0], "pos": mm[1], "a": mm[2], "b": mm[3]}, key=key)
+                       {"pair": [x, y], "query": mm[0], "pos": mm[1], "a": mm[2], "b": mm[3],
+                        "explained_by_unigram_sign_quirk": quirk}, key=key)
                 if not key:
                     continue
         quant = (x in "QB") != (y in "QB")
@@ -328,7 +330,14 @@ def run(ctx):
         case = lmgen.gen_case(ctx.rng, size=size, max_vocab=30 if quick else 60)
         ctx.hist("lm.order", case.meta["order"])
         ctx.hist("lm.kind", case.meta["kind"])
-        found = sweep_case(ctx, case, hexe, dexe, bb, work, ci, quick) or found
+        try:
+            found = sweep_case(ctx, case, hexe, dexe, bb, work, ci, quick) or found
+        except Exception:
+            import traceback
+            ctx.violation("six-way: output of the harness could not be parsed/compared for this case (malformed result line)",
+                          {"stream": "six-way", "arpa": case.arpa.decode("utf-8", "replace"), "queries": case.queries,
+                           "options": {"mult": case.mult, "abits": case.abits}, "traceback": traceback.format_exc()[-1500:]})
+            found = True
     ctx.cov["rule"] = ("six-way: one evaluation = one scored word compared pairwise across the six classes, across the sampled "
                        "configurations and across ARPA-vs-binary loading; distinct by ARPA bytes + queries; non-trivial when the "
                        "model has n-grams of order >= 2")
